@@ -318,7 +318,15 @@ func runHistory(c Case) (v vkit.Verdict) {
 					if fpan != "" {
 						return fmt.Sprintf("fresh transformer %q -> %q panicked on (%v, %v): %s", c.Defs[tt.src], c.Defs[tt.dst], x, y, fpan)
 					}
-					if (gerr != nil) != (ferr != nil) || (gerr == nil && (!same(gx, fx) || !same(gy, fy))) {
+					// two real transformers are the same function of their arguments: bit for bit. (Only when one of the two is
+					// the identity short cut - Equal references - is the comparison up to rounding.)
+					eq := same
+					if ftr != nil && tt.tr != nil {
+						eq = func(a, b float64) bool {
+							return math.Float64bits(a) == math.Float64bits(b) || (math.IsNaN(a) && math.IsNaN(b))
+						}
+					}
+					if (gerr != nil) != (ferr != nil) || (gerr == nil && (!eq(gx, fx) || !eq(gy, fy))) {
 						return fmt.Sprintf("step %d: call %d of transformer %q -> %q on (%v, %v) returned (%v, %v, err=%v); a freshly built transformer returns (%v, %v, err=%v)",
 							i, tt.calls, tt.srcTxt, tt.dstTxt, x, y, gx, gy, gerr, fx, fy, ferr)
 					}
